@@ -1,7 +1,7 @@
 (* C17 — property theorems.  This file contains only statements, each closed
    by [exact] of a lemma from Proofs.v, and non-vacuity examples. *)
 From Coq Require Import List NArith Bool.
-Require Import BobV.Gen.Consts BobV.C17.Model BobV.C17.Proofs BobV.C17.Machine BobV.C17.Spec BobV.C17.MachineProofs.
+Require Import BobV.Gen.Consts BobV.C17.Model BobV.C17.Proofs BobV.C17.Machine BobV.C17.Spec BobV.C17.MachineProofs BobV.C17.Equiv.
 Import ListNotations.
 Open Scope N_scope.
 
@@ -81,6 +81,25 @@ Proof. intros c. exact (proj1 (proj2 (untaken_never_fails c))). Qed.
    internal failure mode *)
 Theorem machine_total : forall c t, parseM c t <> Fuel.
 Proof. exact machine_total_proof. Qed.
+
+(* ---- the two models are one function ----
+   Model.parse transliterates stringparser.py (recursive descent over tokens,
+   one fuel argument for the mutual recursion getString / getVariable /
+   getCommand); Machine.parseM is the character-level pushdown machine the
+   theorems above are about.  The fuel [fuel_for t] always suffices (every call
+   chain of the recursive descent consumes text), and the two functions agree
+   on every context and every raw text: values, parse errors and the
+   unmodelled-function marker alike. *)
+Theorem fuel_enough : forall c t, parse c t <> Fuel.
+Proof. exact fuel_enough_proof. Qed.
+
+Theorem parse_is_parseM : forall c t, parse c t = parseM c t.
+Proof. exact parse_is_parseM_proof. Qed.
+
+(* hence the documented-language theorem holds of the transliteration itself *)
+Theorem parse_render_recursive_descent : forall c e,
+  wf_items e = true -> parse c (r_items e) = e_items c true e.
+Proof. exact parse_render_rd_proof. Qed.
 
 (* non-vacuity: concrete instances, evaluated *)
 Definition ex_ast : items :=     (* "a\$"'q'${Y:-d$X}$(eq,${X},val)$X *)
